@@ -10,7 +10,8 @@
  *   each followed by @<head>,<tail>,<count> of the struct after the op.
  * The buffer is malloc'ed with exactly <capacity> bytes when built with ASan; otherwise it
  * sits between two 64-byte guard areas (0xFD) that are checked after every op.  The program
- * runs in a forked child; the first fault ends the line with one of
+ * runs in a forked child (in this process when the line starts with "nofork "); the first fault
+ * ends the line with one of
  *     FAULT:ASAN  FAULT:GUARD  FAULT:OOBREAD (returned region not inside the buffer)
  *     FAULT:SIG<n>  FAULT:EXIT<n>  FAULT:TIMEOUT */
 #include "jls/msg_ring_buffer.h"
@@ -20,8 +21,9 @@
 #define MRB_GUARD_BYTE 0xFD
 
 /* stdio only: jlsrun is linked with --wrap=write/open/close for other kinds */
+static int mrb_flush_each = 1;
 static void mrb_emit(FILE * fd, const char * s) {
-    if (fputs(s, fd) < 0 || fflush(fd)) _exit(4);
+    if (fputs(s, fd) < 0 || (mrb_flush_each && fflush(fd))) _exit(4);
 }
 
 static void mrb_digest(char * o, const uint8_t * b, uint32_t n) {
@@ -110,6 +112,19 @@ KIND(mrb) {
     (void) argc; (void) argv;
     char * line;
     while ((line = read_line())) {
+        if (0 == strncmp(line, "nofork ", 7)) {
+            /* the caller expects no fault on this program: run it in this process (an ASan
+             * report then ends the whole process and the caller re-runs the rest forked) */
+            mrb_flush_each = 0;
+            int rc = mrb_child(line, stdout);
+            mrb_flush_each = 1;
+            if (rc == 3) printf("FAULT:GUARD");
+            else if (rc == 5) printf("FAULT:OOBREAD");
+            else if (rc != 0) printf("FAULT:EXIT%d", rc);
+            printf("\n");
+            free(line);
+            continue;
+        }
         int pfd[2];
         if (pipe(pfd)) return 3;
         fflush(stdout);
